@@ -84,6 +84,8 @@ type tplTrack struct {
 // template - a copy of the document as it was at the load. again reports the second case.
 func (tt *tplTrack) base(cur *model, eng int) (m *model, again bool) {
 	switch {
+	case eng == 3: // a TemplateRenderer of its own: the case's one engine is not involved
+		return cur, false
 	case eng == 2 && tt.loaded != nil:
 		return tt.loaded.clone(), true
 	case eng >= 1:
@@ -96,7 +98,7 @@ func (tt *tplTrack) base(cur *model, eng int) (m *model, again bool) {
 func (tt *tplTrack) names(s Step) map[string]bool {
 	out := map[string]bool{}
 	if s.TD == 1 {
-		if tt.shared == nil {
+		if tt.shared == nil || s.Clear {
 			tt.shared = map[string]bool{}
 		}
 		for _, d := range s.Data {
@@ -123,6 +125,7 @@ type tdEntry struct {
 	size Size
 	name string // file name of the path (or the original name for data)
 	op   int    // step that set the entry
+	cfg  int    // >0: the entry holds the case's cfg-th shared config object
 }
 
 // slotUse is one picture made from a reused path.
